@@ -1,18 +1,30 @@
-"""TRIVTAB — the constraint solver's *trivial* resolution of `IsDType(t)` for closed types agrees with the predicate
-`Type::is_dtype` the elaborator branches on.
+"""TRIVTAB — the constraint solver's *trivial* resolution of `IsDType(t)` agrees with the predicate `Type::is_dtype`
+the elaborator branches on.
 
 elaborate_expression treats closed operand types (annotated code) and open ones (inferred code) on different paths:
 for closed types it asks `is_dtype()` and then adds `IsDType` constraints through enforce_dtype; for open types it only
-records the equality.  The two paths accept the same programs only if `IsDType(t)` on a closed t is decided on the
-spot exactly like `t.is_dtype()`: Satisfied (and dropped) for the variants is_dtype accepts — unconditionally, type
-parameters included — and Violated for all others.  A guard on that arm, or another result, makes the annotated form
-of a function stricter or laxer than the inferred one (C16), and changes which programs are accepted (C02)."""
+records the equality.  The two paths accept the same programs only if `IsDType(t)` is decided on the spot exactly like
+`t.is_dtype()` whenever t is closed — Satisfied (and dropped) for the types is_dtype accepts, type parameters included,
+Violated for all others — and is kept (Unknown) when t is not closed.
+
+Decided by abstract evaluation of try_trivial_resolution, whatever its shape (guarded arms, an inner match on the type,
+if/else chains): the arms for `Constraint::IsDType` are evaluated for every truth assignment of the atoms
+  C = t.is_closed()      D = t.is_dtype()  (or: t matches the variants is_dtype accepts)      U1.. = any other test
+and the resulting table must be  C∧D -> Satisfied,  C∧¬D -> Violated,  ¬C -> Unknown  for ALL values of the other
+atoms (an extra test that can change the answer for closed types is exactly what makes annotated code stricter or
+laxer than inferred code)."""
+import itertools
+
 from core import RuleOut
-from hirlib import ctor_variant, pat_variants, peel, peel_refs, strip_generics, walk
+from hirlib import ctor_variant, local_of, pat_variants, peel, peel_refs, strip_generics, walk
 
 TYPE = "crate::typed_ast::Type"
 CONSTRAINT = "crate::typechecker::constraints::Constraint"
 TRIV = "crate::typechecker::constraints::TrivialResolution"
+
+
+class Unknown(Exception):
+    pass
 
 
 def dtype_variants(crate):
@@ -28,8 +40,89 @@ def dtype_variants(crate):
     return fn, pos
 
 
+class Eval:
+    def __init__(self, crate, pos):
+        self.crate = crate
+        self.pos = pos
+        self.atoms = []  # names of extra atoms, in order of discovery
+
+    def atom(self, name, env):
+        if name not in self.atoms:
+            self.atoms.append(name)
+        if name not in env:
+            raise Unknown(name)
+        return env[name]
+
+    def cond(self, e, env):
+        e = peel_refs(e)
+        k = e.get("k")
+        if k == "Unary" and e.get("op") == "Not":
+            return not self.cond(e["e"], env)
+        if k == "Binary" and e.get("op") == "&&":
+            return self.cond(e["l"], env) and self.cond(e["r"], env)
+        if k == "Binary" and e.get("op") == "||":
+            return self.cond(e["l"], env) or self.cond(e["r"], env)
+        if k == "Lit" and isinstance(e.get("lit"), dict) and e["lit"].get("lk") == "bool":
+            return e["lit"]["v"] in (True, "true")
+        if k == "MethodCall" and e["name"] == "is_closed":
+            return env["C"]
+        if k == "MethodCall" and e["name"] == "is_dtype":
+            return env["D"]
+        if k == "Let":
+            vs = pat_variants(e["pat"], TYPE)
+            if vs is not None and strip_generics(self.crate.ty(peel_refs(e["init"]))) == TYPE:
+                if vs <= self.pos:
+                    return env["D"]
+                if not (vs & self.pos):
+                    return (not env["D"]) and self.atom("matches:" + "+".join(sorted(vs)), env)
+            return self.atom("let@%s" % e["s"][0], env)
+        if k == "Block" and not e.get("stmts") and e.get("tail") is not None:
+            return self.cond(e["tail"], env)
+        name = e.get("name") if k == "MethodCall" else k
+        return self.atom("%s@%s" % (name, e["s"][0]), env)
+
+    def value(self, e, env):
+        e = peel(e)
+        k = e.get("k")
+        v = ctor_variant(e)
+        if v and v[0] == TRIV:
+            return v[1]
+        if k == "Block":
+            if e.get("stmts"):
+                for st in e["stmts"]:
+                    inner = st.get("e") if st.get("k") in ("Semi", "Expr") else None
+                    if isinstance(inner, dict) and peel(inner).get("k") == "Ret":
+                        return self.value(peel(inner)["e"], env)
+            if e.get("tail") is not None:
+                return self.value(e["tail"], env)
+            raise Unknown("block")
+        if k == "If":
+            if self.cond(e["cond"], env):
+                return self.value(e["then"], env)
+            if e.get("else") is None:
+                raise Unknown("if-without-else")
+            return self.value(e["else"], env)
+        if k == "Match" and strip_generics(self.crate.ty(peel_refs(e["scrut"]))) == TYPE:
+            for a in e["arms"]:
+                vs = pat_variants(a["pat"], TYPE)
+                if vs is None:
+                    hit = True
+                elif vs <= self.pos:
+                    hit = env["D"]
+                elif not (vs & self.pos):
+                    hit = (not env["D"]) and self.atom("matches:" + "+".join(sorted(vs)), env)
+                else:
+                    hit = self.atom("matches:" + "+".join(sorted(vs)), env)
+                if hit and ("guard" not in a or self.cond(a["guard"], env)):
+                    return self.value(a["body"], env)
+            raise Unknown("no arm")
+        if k == "Ret" and e.get("e") is not None:
+            return self.value(e["e"], env)
+        raise Unknown(k)
+
+
 def rule_trivtab(crate):
-    out = RuleOut("TRIVTAB", "IsDType on a closed type is resolved on the spot exactly like Type::is_dtype")
+    out = RuleOut("TRIVTAB", "IsDType is resolved on the spot exactly like Type::is_dtype for closed types and kept for open ones")
     isd, pos = dtype_variants(crate)
     fn = crate.find_fn("constraints::Constraint::try_trivial_resolution")
     f = crate.file_of(fn)
@@ -44,69 +137,61 @@ def rule_trivtab(crate):
     if outer is None:
         out.error("anchor missing: match on the constraint in try_trivial_resolution")
         return out
-    n = 0
-    seen_closed_arm = False
-    for a in outer["arms"]:
-        if pat_variants(a["pat"], CONSTRAINT) != {"IsDType"}:
-            continue
-        guard_closed = "guard" in a and any(x.get("k") == "MethodCall" and x["name"] == "is_closed" for x in walk(a["guard"]))
-        if not guard_closed:
-            if not seen_closed_arm and "guard" not in a:
-                # an unguarded IsDType arm before any closed-type arm decides closed types too
-                v = ctor_variant(a["body"])
-                af, al = crate.loc(fn, a["pat"])
-                out.violation("IsDType:closed-arm", af, al, "IsDType constraints on closed types are not resolved before the general arm (result %s)" % (v[1] if v else "?"))
-            continue
-        seen_closed_arm = True
-        inner = None
-        for m in walk(a["body"]):
-            if m.get("k") == "Match" and str(m.get("src")) == "Normal" and strip_generics(crate.ty(peel_refs(m["scrut"]))) == TYPE:
-                inner = m
-                break
-        af, al = crate.loc(fn, a["pat"])
-        if inner is None:
-            out.violation("IsDType:closed-arm", af, al, "the closed-type IsDType arm does not decide by the type's constructor")
-            continue
-        covered = set()
-        for ia in inner["arms"]:
-            vs = pat_variants(ia["pat"], TYPE)
-            res = ctor_variant(ia["body"])
-            res = res[1] if res and res[0] == TRIV else None
-            xf, xl = crate.loc(fn, ia["pat"])
-            if vs is None:
-                # catch-all: everything not covered so far
-                n += 1
-                rest_has_dtype = bool(pos - covered)
-                if rest_has_dtype:
-                    out.violation("IsDType:closed:%s" % "+".join(sorted(pos - covered)), xf, xl, "a closed %s type reaches the catch-all arm and is resolved as %s instead of Satisfied: the annotated form of a function is checked differently from the inferred one" % ("/".join(sorted(pos - covered)), res))
-                if res == "Violated" and "guard" not in ia:
-                    out.ok("IsDType:closed:other", xf, xl, "closed non-dimension types are Violated at once")
-                else:
-                    out.violation("IsDType:closed:other", xf, xl, "closed non-dimension types are not rejected at once (result %s%s)" % (res, ", guarded" if "guard" in ia else ""))
+    arms = [a for a in outer["arms"] if pat_variants(a["pat"], CONSTRAINT) == {"IsDType"} or pat_variants(a["pat"], CONSTRAINT) is None]
+    if not any(pat_variants(a["pat"], CONSTRAINT) == {"IsDType"} for a in arms):
+        out.error("anchor missing: no arm for Constraint::IsDType in try_trivial_resolution")
+        return out
+    ev = Eval(crate, pos)
+
+    def decide(env):
+        for a in arms:
+            if "guard" in a and not ev.cond(a["guard"], env):
                 continue
-            for v in sorted(vs):
-                n += 1
-                key = "IsDType:closed:%s" % v
-                if v in covered:
+            return ev.value(a["body"], env)
+        raise Unknown("no IsDType arm applies")
+
+    # discover the extra atoms by evaluating with growing environments
+    want = {(True, True): "Satisfied", (True, False): "Violated", (False, True): "Unknown", (False, False): "Unknown"}
+    line = crate.loc(fn, arms[0]["pat"])[1]
+    n = 0
+    for (C, D), expect in sorted(want.items(), reverse=True):
+        n += 1
+        key = "IsDType:%s:%s" % ("closed" if C else "open", "dtype" if D else "other")
+        results = {}
+        undecided = None
+        # iterate: evaluate, on Unknown(atom) add that atom and enumerate both values
+        pending = [{"C": C, "D": D}]
+        guard_iter = 0
+        while pending and guard_iter < 256:
+            guard_iter += 1
+            env = pending.pop()
+            try:
+                r = decide(env)
+                results[tuple(sorted((k, v) for k, v in env.items() if k not in ("C", "D")))] = r
+            except Unknown as u:
+                name = str(u)
+                if name in env or name in ("block", "if-without-else", "no arm", "no IsDType arm applies") or name in ("Match", "MethodCall", "Call", "Path"):
+                    undecided = name
                     continue
-                if v in pos:
-                    if res == "Satisfied" and "guard" not in ia:
-                        out.ok(key, xf, xl, "closed %s types (type parameters included) satisfy IsDType at once, as Type::is_dtype says" % v)
-                        covered.add(v)
-                    elif "guard" in ia:
-                        out.violation(key, xf, xl, "IsDType on a closed %s type is resolved as Satisfied only under an extra guard; the remaining closed types stay as constraints although the elaborator's is_dtype() already accepted them: annotated signatures (closed types with type parameters) are checked more strictly than inferred ones" % v)
-                        # do not mark covered: a later arm decides the rest
-                    else:
-                        out.violation(key, xf, xl, "IsDType on a closed %s type is resolved as %s, but Type::is_dtype accepts it" % (v, res))
-                        covered.add(v)
-                else:
-                    if res == "Violated":
-                        out.ok(key, xf, xl, "closed %s types violate IsDType at once" % v)
-                    else:
-                        out.violation(key, xf, xl, "IsDType on a closed %s type is resolved as %s, but Type::is_dtype rejects it" % (v, res))
-                    covered.add(v)
-    if not seen_closed_arm:
-        out.error("anchor missing: `Constraint::IsDType(t) if t.is_closed()` arm of try_trivial_resolution")
-    out.analysed = {"rows": n, "dtype_variants": sorted(pos)}
-    out.floor("rows", n, 2)
+                for val in (True, False):
+                    e2 = dict(env)
+                    e2[name] = val
+                    pending.append(e2)
+        vals = set(results.values())
+        if undecided and not results:
+            out.advisory(key, f, line, "the resolution of IsDType could not be evaluated for this case (%s); not decided" % undecided)
+        elif vals == {expect}:
+            out.ok(key, f, line, "IsDType(t) with t %s and %s resolves to %s under every other test (%d case(s))" % ("closed" if C else "not closed", "a dimension type" if D else "not a dimension type", expect, len(results)))
+        else:
+            bad = [(k, v) for k, v in results.items() if v != expect]
+            atoms = ", ".join("%s=%s" % (a.split("@")[0], b) for a, b in bad[0][0]) or "always"
+            if C and D:
+                msg = "IsDType on a closed dimension type is not always Satisfied on the spot (it is %s when %s), although Type::is_dtype — the test that sends annotated code down the closed-type path — accepts it: annotated signatures (closed types with type parameters) are then checked more strictly than inferred ones" % (bad[0][1], atoms)
+            elif C:
+                msg = "IsDType on a closed non-dimension type resolves to %s (%s) instead of Violated" % (bad[0][1], atoms)
+            else:
+                msg = "IsDType on a type that is not closed resolves to %s (%s) instead of being kept (Unknown): the constraint is decided before its type variables are solved" % (bad[0][1], atoms)
+            out.violation(key, f, line, msg)
+    out.analysed = {"rows": n, "dtype_variants": sorted(pos), "extra_atoms": len(ev.atoms)}
+    out.floor("rows", n, 4)
     return out
